@@ -1,7 +1,7 @@
 """C04 -- scheduling never breaks safety or well-formedness."""
 import json
 
-from vf import explore, menus, oracles, seeds, wf, inputs, interp, findings
+from vf import explore, menus, oracles, seeds, wf, inputs, interp, findings, plans
 from vf.oracles import BaseOracle
 from vf.checks.c01 import fill_evidence, seed_list, replay  # noqa
 
@@ -35,14 +35,14 @@ class Oracle(BaseOracle):
             except ValueError:
                 continue
             except KeyError as ex:
-                self.violation(dict(base, oracle="safety", kind="unbound-variable", cause=findings.cause_of(ev, p, q, "unbound-variable")), dict(art, detail=repr(ex), input=oracles.jsonable_val(val)))
+                self.violation(dict(base, oracle="safety", kind="unbound-variable", cause=findings.cause_of(ev, p, q, "unbound-variable", {"input": oracles.jsonable_val(val)})), dict(art, detail=repr(ex), input=oracles.jsonable_val(val)))
                 return
             self.stat("valuations")
             new = inputs.new_safety(rp, rq)
             if rq.abort and not new:
                 new = [("unbound-variable" if rq.abort.startswith("unbound-variable") else "abort", rq.abort)]
             if new:
-                self.violation(dict(base, oracle="safety", kind=new[0][0], cause=findings.cause_of(ev, p, q, new[0][0])),
+                self.violation(dict(base, oracle="safety", kind=new[0][0], cause=findings.cause_of(ev, p, q, new[0][0], {"input": oracles.jsonable_val(val)})),
                                dict(art, monitors=[list(x) for x in new[:4]], input=oracles.jsonable_val(val)))
                 return
             # uninitialised value where the source had a defined one
@@ -52,7 +52,7 @@ class Oracle(BaseOracle):
                     continue
                 for i, (a, b) in enumerate(zip(pc, cells)):
                     if b is not None and b.has_undef() and not (a is not None and a.has_undef()):
-                        self.violation(dict(base, oracle="safety", kind="uninit", cause=findings.cause_of(ev, p, q, "uninit")),
+                        self.violation(dict(base, oracle="safety", kind="uninit", cause=findings.cause_of(ev, p, q, "uninit", {"input": oracles.jsonable_val(val)})),
                                        dict(art, cell=f"{nm}@{i}", input=oracles.jsonable_val(val)))
                         return
         # (3) compiles, or is rejected by a documented backend check
@@ -89,10 +89,5 @@ def _wf_kind(msg):
 
 def run(rep):
     tier = rep.tier
-    names = seed_list(tier)
-    if tier == "quick":
-        st = explore.explore(rep, names, "vf.checks.c04", tier, depth=1, root_parts=6)
-    else:
-        st = explore.explore(rep, names, "vf.checks.c04", tier, depth=2, root_parts=8,
-                             max_states_per_level=6000, time_budget_s=3000)
+    st = plans.run_plan(rep, "vf.checks.c04", tier, plans.standard(tier))
     fill_evidence(rep, st)
